@@ -58,6 +58,8 @@ def after_parse_ok(body):
             for v, tb in tt["arms"]:
                 if v == 0:
                     return tb
+            if [v for v, _ in tt["arms"]] == [1]:
+                return tt["otherwise"]  # `if let Err(e) = parse(..) { return Err(e) }`: success is the other edge
             raise ValueError("no Continue arm after the parser call")
         nxt = body.succ[b]
         if not nxt:
@@ -130,6 +132,8 @@ def arity(ctx, rule):
 
 def _known_region(body, start, env, roles, kill):
     """Blocks reachable from start before the tracked vector is modified again."""
+    # (path-sensitive, with the store for bool temporaries of `||` chains and `matches!`)
+    return absint.reach(body, start, env, roles, kill_on_call=kill, known_only=True)
     from collections import deque
     seen = set()
     dq = deque([start])
